@@ -13,7 +13,7 @@ import timesgen as tg
 PROP = "C17"
 RULE = ("generated chronologically ordered TLE files (1..400 sets; gaps of hours to years; duplicated epochs; epochs in both "
         "centuries around the 1950 pivot; sets on days 365 / 366 / 001 around the end of leap and common years; dyadic day fractions for exact boundaries and random 8-digit fractions), each set "
-        "tagged with its index; query times before / inside / at exact midpoints (+-5 ms) / after the epochs; thresholds "
+        "tagged with its index; passes of 1 .. 13000 lines whose first line lies before / inside / at exact midpoints (+-5 ms) / after the epochs; thresholds "
         "0.5, 1, 3, 7, 30 days incl. the exact edge; a case = (file, pass start, threshold); non-trivial = distinct case "
         "where the file has >= 2 sets")
 ASSUME = ["float64 decoding of the epoch field is within 1 ms of the exact decimal (property's own tolerance): boundary "
@@ -118,7 +118,9 @@ def run(res, tier, seed):
                     for sq in ss:
                         r.tle_lines = None
                         r.tle_thresh = float(th)
-                        r._times_as_np_datetime64 = np.array([sq], dtype="datetime64[ms]")
+                        # the pass: 1 .. 13000 lines starting at sq (the FIRST line's time is the query time)
+                        L = rng.choice([1, 2, 1200, 13000])
+                        r._times_as_np_datetime64 = (np.int64(sq) + 500 * np.arange(L, dtype=np.int64)).astype("datetime64[ms]")
                         try:
                             l1, l2 = r.get_tle_lines()
                             i1, i2 = int(l1.split()[-1]), int(l2.split()[3])
